@@ -6,6 +6,7 @@
 //!        coll-mc replay --prop <id> --case "<text>"
 
 mod abort;
+mod boxinit;
 mod elem;
 mod flatten;
 mod split;
@@ -113,7 +114,7 @@ fn drive<T: ElemT + Clone + PartialEq, Sub: Subject<T>>(mut sub: Sub, mut model:
             }
             if let Ok(Some(r)) = &mut m {
                 // (`map` turns the zero-sized values into numbers: 0 + 2000)
-                let z = if matches!(op, VOp::Map) { 2000 } else { 0 };
+                let z = if matches!(op, VOp::Map | VOp::TryMap) { 2000 } else { 0 };
                 for v in r.vals.iter_mut() {
                     *v = z;
                 }
@@ -188,7 +189,7 @@ fn drive<T: ElemT + Clone + PartialEq, Sub: Subject<T>>(mut sub: Sub, mut model:
                     }
                     match *op {
                         VOp::Reserve(k) | VOp::ReserveExact(k) => promised = promised.max(model.len() + k),
-                        VOp::ShrinkToFit | VOp::RoundTrip => promised = 0,
+                        VOp::ShrinkToFit | VOp::RoundTrip | VOp::Rebuild(_) => promised = 0,
                         VOp::SplitOff(..) if kind != Kind::Fixed => promised = 0,
                         VOp::ShrinkTo(k) => promised = promised.min(k.max(model.len())),
                         _ => {}
@@ -196,7 +197,7 @@ fn drive<T: ElemT + Clone + PartialEq, Sub: Subject<T>>(mut sub: Sub, mut model:
                     if kind != Kind::Boxed && cap < promised {
                         return (Verdict::Violation(i, format!("{op}: capacity {cap} is below the promised {promised}")), changed);
                     }
-                    let may_move = matches!(op, VOp::ShrinkToFit | VOp::ShrinkTo(_) | VOp::SplitOff(..) | VOp::RoundTrip | VOp::ExtendIter(_, true) | VOp::Reserve(_) | VOp::ReserveExact(_));
+                    let may_move = matches!(op, VOp::ShrinkToFit | VOp::ShrinkTo(_) | VOp::SplitOff(..) | VOp::RoundTrip | VOp::Rebuild(_) | VOp::ExtendIter(_, true) | VOp::Reserve(_) | VOp::ReserveExact(_));
                     if !may_move && kind != Kind::Boxed && model.len() <= cap_before && sub.anchor() != anchor_before {
                         return (Verdict::Violation(i, format!("{op}: the buffer moved although the capacity {cap_before} sufficed for {} elements", model.len())), changed);
                     }
@@ -366,7 +367,7 @@ where
 
 /// the operations applicable to a vector of `n` elements (every index / range incl. one out-of-range value)
 pub fn ops_for(n: usize, thorough: bool, inject: bool) -> Vec<VOp> {
-    let mut v = vec![VOp::Push(41), VOp::PushWith(42), VOp::Pop, VOp::PopIf(true), VOp::PopIf(false), VOp::Clear, VOp::Dedup, VOp::DedupByKey, VOp::ShrinkToFit, VOp::RoundTrip, VOp::Reserve(2), VOp::Reserve(9), VOp::ReserveExact(3)];
+    let mut v = vec![VOp::Push(41), VOp::PushWith(42), VOp::PushMut(46), VOp::PushMutWith(47), VOp::InsertMut(n / 2, 48), VOp::Rebuild(0), VOp::Rebuild(2), VOp::Pop, VOp::PopIf(true), VOp::PopIf(false), VOp::Clear, VOp::Dedup, VOp::DedupByKey, VOp::ShrinkToFit, VOp::RoundTrip, VOp::Reserve(2), VOp::Reserve(9), VOp::ReserveExact(3)];
     for i in 0..=n + 1 {
         v.push(VOp::Insert(i, 43));
         v.push(VOp::Truncate(i));
@@ -429,6 +430,11 @@ pub fn ops_for(n: usize, thorough: bool, inject: bool) -> Vec<VOp> {
     v.push(VOp::IntoIter(n, 0));
     v.push(VOp::MapInPlace);
     v.push(VOp::Map);
+    v.push(VOp::TryMap);
+    if thorough {
+        v.push(VOp::Rebuild(1));
+        v.push(VOp::Rebuild(3));
+    }
     v
 }
 
@@ -663,6 +669,11 @@ fn parse_ops(s: &str) -> Option<Vec<VOp>> {
             "Push" => VOp::Push(u(0)? as u32),
             "PushWith" => VOp::PushWith(u(0)? as u32),
             "Insert" => VOp::Insert(u(0)?, u(1)? as u32),
+            "PushMut" => VOp::PushMut(u(0)? as u32),
+            "PushMutWith" => VOp::PushMutWith(u(0)? as u32),
+            "InsertMut" => VOp::InsertMut(u(0)?, u(1)? as u32),
+            "Rebuild" => VOp::Rebuild(u(0)? as u8),
+            "TryMap" => VOp::TryMap,
             "Remove" => VOp::Remove(u(0)?),
             "SwapRemove" => VOp::SwapRemove(u(0)?),
             "Pop" => VOp::Pop,
@@ -803,7 +814,10 @@ fn main() {
             match prop.as_str() {
                 "C06" | "C08" => {
                     results.push(explore_vecs(&prop, thorough, deadline));
-                    if thorough && prop == "C06" && results[0].1.is_empty() {
+                    if prop == "C06" && results[0].1.is_empty() {
+                        results.push(boxinit::explore(thorough));
+                    }
+                    if thorough && prop == "C06" && results.iter().all(|r| r.1.is_empty()) {
                         // one level deeper with the plain alphabet: a panic at every callback of every history of 3 operations
                         results.push(explore_vecs_ex(&prop, true, false, 3, vec![0, 2], "vectors-depth-3-plain-alphabet", deadline));
                     }
@@ -839,6 +853,13 @@ fn main() {
                 match abort_verdict(ci.parse().expect("ci"), name) {
                     Ok(_) => println!("REPLAY OK"),
                     Err(m) => println!("REPLAY VIOLATION step=0 msg={m}"),
+                }
+                return;
+            }
+            if case.starts_with("boxinit:") {
+                match boxinit::replay(&case) {
+                    Some(m) => println!("REPLAY VIOLATION step=0 msg={m}"),
+                    None => println!("REPLAY OK"),
                 }
                 return;
             }
